@@ -5,6 +5,7 @@ FS = 'lightning_persister::fs_store::common::FilesystemStoreInner::'
 FSO = 'lightning_persister::fs_store::common::FilesystemStore'
 PI = 'lightning::util::persist::MonitorUpdatingPersisterAsyncInner::'
 UP = 'lightning::util::persist::'
+UPK = 'lightning::util::persist::<impl lightning::chain::chainmonitor::Persist for K>::'
 
 EXPLANATION = ('Path rules over the MIR of lightning-persister::fs_store and lightning::util::persist: the atomic-replace recipe '
 	'(write -> fsync(tmp) -> rename -> fsync(dir)) holds on every path to a successful return; the destination is only ever '
@@ -338,7 +339,7 @@ def r19f(F):
 	REVIEWED = {
 		(PI + 'cleanup_in_range', 'remove'): 'best-effort lazy deletion of already-consolidated updates; failure is logged',
 		(PI + 'archive_persisted_channel', 'remove'): 'lazy removal after the archive copy was written; a left-over monitor is harmless',
-		(UP + 'archive_persisted_channel', 'remove'): 'same, sync variant',
+		(UPK + 'archive_persisted_channel', 'remove'): 'same, sync variant',
 	}
 	fns = [k for k in F.fns if k.startswith('lightning::util::persist::') and 'Wrapper' not in k]
 	n = 0
@@ -370,7 +371,7 @@ def r19f(F):
 
 def r19g(F):
 	out = []
-	for fn, store in ((PI + 'archive_persisted_channel', 'KVStore'), (UP + 'archive_persisted_channel', 'KVStoreSync')):
+	for fn, store in ((PI + 'archive_persisted_channel', 'KVStore'), (UPK + 'archive_persisted_channel', 'KVStoreSync')):
 		body = _async_body(F, fn)
 		rm = set(sites_call(body, [store + '::remove']))
 		out += guarded_by_call(F, '19.g', body.name, rm, [store + '::write'], 'result', True)
